@@ -565,6 +565,13 @@ func addStartFault(r *runner.Rand, p *Plan, prop string) {
 	if r.Chance(1, 4) {
 		c.KeepAlive = 60
 	}
+	if !c.Client && len(p.Conns) > 1 && r.Chance(1, 10) {
+		// accept4 fails for good (descriptor table full) while connections are open:
+		// the loop that accepted gives up and takes the engine down with an error;
+		// everything must still be closed and released before Run returns
+		p.Faults = append(p.Faults, vsys.Fault{Site: "accept", Class: "listener", Nth: r.Range(2, len(p.Conns)), Errno: int([]unix.Errno{unix.EMFILE, unix.ENFILE, unix.ENOMEM}[r.Intn(3)])})
+		return
+	}
 	if !r.Chance(1, 6) {
 		return
 	}
